@@ -12,7 +12,9 @@ def scenarios(tier):
     # (1) a sub-redo with children whose exit coincides with a token arriving
     L.append((SC.scn("fan3x2-j2", w["fan3x2"], ["redo --no-log -j2 t1 t2"], visible=SC.TOKENS), 1 if q else 2))
     # (2) two top-level invocations forcing the same target
-    L.append((SC.scn("two-redo-x", w["one"], ["redo --no-log x", "redo --no-log x"], visible=SC.CORE), 1 if q else 2))
+    # (small enough for two deviations in the quick tier: e.g. "the target becomes free between the waiting invocation's
+    # self-check and its next look at the lock" needs a switch to the second invocation and a switch back)
+    L.append((SC.scn("two-redo-x", w["one"], ["redo --no-log x", "redo --no-log x"], visible=SC.CORE), 2 if q else 3))
     L.append((SC.scn("two-ifchange-top", w["chain"], ["redo-ifchange top", "redo-ifchange top"],
                      setup=[["ifchange", ["top"]], ["edit", "s", "1"]], visible=SC.CORE), 1 if q else 2))
     # (3) the same target named twice in one command, by two spellings
